@@ -430,7 +430,7 @@ pub fn run(args: &Args, report: &mut Report) {
         let r: Value = serde_json::from_str(&std::fs::read_to_string(path).expect("replay")).expect("json");
         vec![(r["input"]["text"].as_str().unwrap_or("").to_string(), "replay")]
     } else {
-        let (nv, ni) = if thorough { (1200, 800) } else { (70, 50) };
+        let (nv, ni) = if thorough { (600, 400) } else { (70, 50) };
         docs::documents(&mut rng, nv, ni)
     };
     // a second file so that cross-file results (other uri) occur
@@ -496,7 +496,7 @@ pub fn run(args: &Args, report: &mut Report) {
         // short documents and of the lines holding comments / strings / trigger characters — boundaries *inside* a
         // token (markup items of a doc description, string content) are not token boundaries
         let mut dense = docs::dense_positions(&text, text.len() > 160);
-        let cap = if thorough { 1500 } else { 70 };
+        let cap = if thorough { 250 } else { 70 };
         while dense.len() > cap {
             let i = rng.below(dense.len());
             dense.swap_remove(i);
